@@ -10,6 +10,8 @@ pub mod c12;
 pub mod c12z;
 pub mod c13;
 pub mod c16;
+pub mod c17;
+pub mod c18;
 pub mod c19;
 pub mod chist;
 
@@ -28,6 +30,8 @@ pub fn all() -> Vec<(&'static str, fn() -> Vec<CheckDef>)> {
         ("C12", c12::checks),
         ("C13", c13::checks),
         ("C14", chist::c14_checks),
+        ("C17", c17::checks),
+        ("C18", c18::checks),
         ("C19", c19::checks),
         ("C20", chist::c20_checks),
     ]
